@@ -154,12 +154,12 @@ def rho_to_V(rho, MW):
 
 def remove_negligible_negative_values(material):
     negative_index = material.negative_index()
-    if negative_index:
+    if negative_index[0]:
         material_sum = abs(material).sum()
         if material_sum > 1e-16:
+            # The mask refers to the negative entries, not to the material itself
             negligible = material[negative_index] / material_sum > -1e-16
-            material[negligible] = 0. 
-        else:
-            material[negative_index] = 0. 
+            negative_index = tuple([[j for j, k in zip(i, negligible) if k] for i in negative_index])
+        if negative_index[0]: material[negative_index] = 0.
 
 del njit
